@@ -4,6 +4,8 @@
 //! This module allows you to perform Set operations (union, intersection, difference) on
 //! [`PrefixMap`]s and [`PrefixSet`]s, optionally of only a trie-view.
 
+use std::sync::atomic::Ordering;
+
 use crate::{
     inner::{Direction, DirectionForInsert, Node, Table},
     map::{Iter, IterMut, Keys, Values, ValuesMut},
@@ -1298,7 +1300,11 @@ impl<P, T> TrieViewMut<'_, P, T> {
     /// # }
     /// ```
     pub fn remove(&mut self) -> Option<T> {
-        self.node_mut()?.value.take()
+        let value = self.node_mut()?.value.take();
+        if value.is_some() {
+            self.table.counter().fetch_sub(1, Ordering::Relaxed);
+        }
+        value
     }
 
     /// Set the value of the node currently pointed at. This operation fails if the current view
@@ -1350,7 +1356,13 @@ impl<P, T> TrieViewMut<'_, P, T> {
     /// ```
     pub fn set(&mut self, value: T) -> Result<Option<T>, T> {
         match self.node_mut() {
-            Some(n) => Ok(n.value.replace(value)),
+            Some(n) => {
+                let old_value = n.value.replace(value);
+                if old_value.is_none() {
+                    self.table.counter().fetch_add(1, Ordering::Relaxed);
+                }
+                Ok(old_value)
+            }
             None => Err(value),
         }
     }
